@@ -216,3 +216,60 @@ Proof.
   assert (H' : map (fun a => a + c) x <> []) by (destruct x; [congruence|discriminate]).
   rewrite (ssd_fixed_is_sqdev _ _ H'), (ssd_fixed_is_sqdev _ _ H), qsum_sqdev_shift. reflexivity.
 Qed.
+
+(* ================================================================ fff_glm_twolevel EM *)
+(* with finite, non-degenerate variances the E step is the same Gaussian posterior as
+   MixedEffectsModel's (e_mean / e_cvar), written with precisions *)
+Lemma ens_pos_id : forall a, TINY < a -> ens_pos a = a.
+Proof. intros a H. unfold ens_pos. destruct (Qlt_le_dec TINY a); [reflexivity|lra]. Qed.
+
+Lemma tiny_pos : 0 < TINY.
+Proof. reflexivity. Qed.
+
+Lemma glm2_estep_is_posterior : forall s2 yi vyi fi, TINY < s2 -> TINY < vyi ->
+  glm2_z (glm2_w2 (Some s2)) yi vyi fi == e_mean s2 yi vyi fi /\
+  glm2_vz (glm2_w2 (Some s2)) vyi == e_cvar s2 vyi.
+Proof.
+  intros s2 yi vyi fi H1 H2. assert (T := tiny_pos).
+  unfold glm2_z, glm2_vz, glm2_w2, e_mean, e_cvar. rewrite !ens_pos_id by assumption.
+  split; field; repeat split; lra.
+Qed.
+
+(* first iteration (s2 = +inf): the posterior is the observation itself *)
+Lemma glm2_first_estep : forall yi vyi fi, TINY < vyi ->
+  glm2_z (glm2_w2 None) yi vyi fi == yi /\ glm2_vz (glm2_w2 None) vyi == vyi.
+Proof.
+  intros yi vyi fi H. assert (T := tiny_pos).
+  unfold glm2_z, glm2_vz, glm2_w2. rewrite !ens_pos_id by assumption. split; field; lra.
+Qed.
+
+(* the variance update uses the sum of squares of the residuals about 0 (not about their mean) *)
+Lemma glm2_s2_is_uncentred : forall r, r <> [] -> ssd_fixed r 0 == qsum (map (fun v => v * v) r).
+Proof.
+  intros r H. rewrite (ssd_fixed_is_sqdev r 0 H). apply qsum_map_ext. intros a. ring.
+Qed.
+
+Lemma glm2_centred_would_differ :
+  let r := [1; 2] in ~ vec_ssd r == ssd_fixed r 0.
+Proof. cbv zeta. vm_compute. discriminate. Qed.
+
+(* ================================================================ Laplace: the clamp *)
+Lemma laplace_ratio_ge_1 : forall x base, 0 < sad x (lib_median x) / qlen x -> 1 <= laplace_ratio x base.
+Proof.
+  intros x base H. unfold laplace_ratio.
+  set (s := sad x (lib_median x) / qlen x) in *. set (s0 := sad x base / qlen x).
+  apply Qle_shift_div_l; [exact H|]. unfold qmax'. destruct (Qlt_le_dec s s0); lra.
+Qed.
+
+Section Laplace.
+Variables sqrtq lnq : Q -> Q.
+Hypothesis ln_nonneg : forall a, 1 <= a -> 0 <= lnq a.
+(* hence the argument of sqrt is never negative (no NaN), whatever the baseline *)
+Lemma laplace_sqrt_arg_nonneg : forall x base, 0 < sad x (lib_median x) / qlen x ->
+  0 <= 2 * qlen x * lnq (laplace_ratio x base).
+Proof.
+  intros x base H. assert (L := ln_nonneg _ (laplace_ratio_ge_1 x base H)).
+  assert (N : 0 <= qlen x). { unfold qlen. change 0 with (inject_Z 0). rewrite <- Zle_Qle. lia. }
+  nra.
+Qed.
+End Laplace.
